@@ -53,7 +53,6 @@ enum Op {
 struct Scenario {
 	sr: u32,
 	buf: usize,
-	fuel: u64,
 	ops: Vec<Op>,
 	dyadic: bool,
 }
@@ -126,11 +125,10 @@ fn op_term(o: &Op, dy: bool) -> String {
 }
 fn scenario_term(sc: &Scenario, q: bool) -> String {
 	format!(
-		"{} {} {} {} [{}]",
+		"{} {} {} [{}]",
 		if q { "CSysQ" } else { "CSys64" },
 		sc.sr,
 		sc.buf,
-		sc.fuel,
 		sc.ops.iter().map(|o| op_term(o, sc.dyadic)).collect::<Vec<_>>().join("; ")
 	)
 }
@@ -384,6 +382,7 @@ fn run_scenario(sc: &Scenario, timeout_ms: u64) -> Trace {
 fn gen_speed(r: &mut Rng, dyadic: bool) -> Spd {
 	if dyadic {
 		// TicksPerSecond(k/8), sometimes SecondsPerTick(2^-j) / TicksPerMinute(60 * k/8): all conversions exact
+		// (large exact speeds are driven by monitor_partition: a speed tween from one would exceed the mantissa budget)
 		match r.below(6) {
 			0 => Spd { kind: 0, x: 1.0 / (1u64 << r.below(5)) as f64 },
 			1 => Spd { kind: 2, x: 60.0 * r.below(64) as f64 / 8.0 },
@@ -393,11 +392,18 @@ fn gen_speed(r: &mut Rng, dyadic: bool) -> Spd {
 			}
 		}
 	} else {
-		match r.below(6) {
+		match r.below(7) {
 			0 => Spd { kind: 0, x: 0.01 + r.unit_f64() * 2.0 },
 			1 => Spd { kind: 2, x: r.unit_f64() * 400.0 },
 			2 => Spd { kind: 2, x: *r.pick(&[120.0, 90.0, 133.3, 60.0]) },
 			3 => Spd { kind: 1, x: (2 * r.below(50) + 1) as f64 },
+			// extreme speeds (the F7 region and its border): zero / tiny seconds per tick, increments at and
+			// beyond 2^53 and 2^64 ticks per buffer, the largest finite speeds, infinite speeds
+			4 => match r.below(3) {
+				0 => Spd { kind: 0, x: *r.pick(&[0.0, 5e-324, 1e-300, 1e-12, 1e-9, 2.5e-7]) },
+				1 => Spd { kind: r.below(2) as u8 + 1, x: *r.pick(&[1e9, 1e15, 9007199254740992.0, 3.0e16, 1.8446744073709552e19, 6.0e20, 1e25, 1e300, f64::MAX, f64::INFINITY]) },
+				_ => Spd { kind: 1, x: (r.unit_f64() * 70.0).exp2() },
+			},
 			_ => Spd { kind: 1, x: r.unit_f64() * 20.0 },
 		}
 	}
@@ -550,7 +556,7 @@ fn gen_scenario(r: &mut Rng, dyadic: bool, events: bool) -> Scenario {
 			ops.push(Op::Obs(k));
 		}
 	}
-	Scenario { sr, buf, fuel: 3000, ops, dyadic }
+	Scenario { sr, buf, ops, dyadic }
 }
 
 fn key_of(s: &str) -> String {
@@ -569,7 +575,12 @@ fn key_of(s: &str) -> String {
 /// internal buffers: time() must agree bit for bit and equal speed * t exactly
 fn monitor_partition(s: &mut Session, r: &mut Rng) {
 	let sr = *r.pick(&[512u32, 1024, 256]);
-	let sp = Spd { kind: 1, x: (r.below(200) + 1) as f64 / 8.0 };
+	let sp = if r.chance(1, 8) {
+		// millions of ticks per buffer: one `floor` now, formerly one loop iteration per tick
+		Spd { kind: 1, x: ((r.below(200) + 1) << r.range(10, 28)) as f64 / 8.0 }
+	} else {
+		Spd { kind: 1, x: (r.below(200) + 1) as f64 / 8.0 }
+	};
 	let total = r.below(3000) as usize + 1;
 	let run = |r: &mut Rng| -> (Scenario, Trace) {
 		let buf = *r.pick(&[1usize, 3, 16, 64, 100, 128, 500]);
@@ -583,7 +594,7 @@ fn monitor_partition(s: &mut Session, r: &mut Rng) {
 		}
 		ops.push(Op::StartProc);
 		ops.push(Op::Obs(0));
-		let sc = Scenario { sr, buf, fuel: 100000, ops, dyadic: true };
+		let sc = Scenario { sr, buf, ops, dyadic: true };
 		let t = run_scenario(&sc, 20000);
 		(sc, t)
 	};
@@ -672,7 +683,7 @@ fn monitor_history(s: &mut Session, r: &mut Rng) {
 			ops.push(Op::Obs(0));
 		}
 	}
-	let sc = Scenario { sr, buf, fuel: 100000, ops, dyadic: true };
+	let sc = Scenario { sr, buf, ops, dyadic: true };
 	let t = run_scenario(&sc, 20000);
 	s.eval_only("monitor_history");
 	let desc = scenario_term(&sc, false);
@@ -782,7 +793,7 @@ fn monitor_self_reference(s: &mut Session, r: &mut Rng) {
 			Op::Obs(0),
 			Op::Obs(1),
 		];
-		let sc = Scenario { sr, buf, fuel: 100000, ops, dyadic: true };
+		let sc = Scenario { sr, buf, ops, dyadic: true };
 		let t = run_scenario(&sc, 20000);
 		s.eval_only("monitor_self_reference");
 		if t.views.len() != 2 {
@@ -812,23 +823,69 @@ fn monitor_self_reference(s: &mut Session, r: &mut Rng) {
 	}
 }
 
-/// F7: speeds whose tick timer never drops below 1.0
-fn f7_cases(s: &mut Session) {
-	for sp in [Spd { kind: 0, x: 0.0 }, Spd { kind: 1, x: 1e300 }, Spd { kind: 1, x: f64::INFINITY }] {
-		let ops = vec![Op::AddClock(sp), Op::Start(0), Op::StartProc, Op::Obs(0), Op::Process(16), Op::StartProc, Op::Obs(0)];
-		let sc = Scenario { sr: 512, buf: 16, fuel: 200, ops, dyadic: false };
+/// F7 (repaired): the speeds on which `Clock::update` used to count ticks forever (SecondsPerTick(0.0):
+/// increment +inf; TicksPerSecond(1e300): x - 1.0 == x) or for minutes (TicksPerSecond(1e9) at a 1 Hz
+/// device: 1.6e10 iterations per 16-frame buffer) are regression cases: every callback must return
+/// promptly, with exactly the tick count and fraction the model predicts (Props.v tick_loop_diverges_refuted).
+fn f7_regression_cases(s: &mut Session) {
+	let cases: [(Spd, u32, &str); 6] = [
+		(Spd { kind: 0, x: 0.0 }, 512, "SecondsPerTick(0.0)"),
+		(Spd { kind: 1, x: 1e300 }, 512, "TicksPerSecond(1e300)"),
+		(Spd { kind: 1, x: f64::INFINITY }, 512, "TicksPerSecond(inf)"),
+		(Spd { kind: 1, x: 1e9 }, 1, "TicksPerSecond(1e9) at a 1 Hz device rate"),
+		(Spd { kind: 2, x: f64::MAX }, 1, "TicksPerMinute(f64::MAX) at a 1 Hz device rate"),
+		(Spd { kind: 1, x: 5.0e17 }, 1, "TicksPerSecond(5e17) at a 1 Hz device rate (u64 saturates in the third buffer)"),
+	];
+	for (sp, sr, what) in cases {
+		let ops = vec![
+			Op::AddClock(sp),
+			Op::Start(0),
+			Op::StartProc,
+			Op::Obs(0),
+			Op::Process(16),
+			Op::StartProc,
+			Op::Obs(0),
+			Op::Process(40),
+			Op::StartProc,
+			Op::Obs(0),
+		];
+		let sc = Scenario { sr, buf: 16, ops, dyadic: false };
+		let t0 = std::time::Instant::now();
 		let t = run_scenario(&sc, 3000);
-		s.case("tick_loop_diverges", scenario_term(&sc, false), &t.obs64, Some(format!("f7:{}", sp.x.to_bits())));
+		let took = t0.elapsed();
+		s.case("f7_regression", scenario_term(&sc, false), &t.obs64, Some(format!("f7:{}:{}", sp.kind, sp.x.to_bits())));
 		if !t.complete && t.panic.is_none() {
 			s.fail(
 				scenario_term(&sc, false),
-				format!("clock speed {:?}: the audio callback did not return within 3 s (tick loop `while tick_timer >= 1.0` never ends)", sp.real()),
-				Some("clock_speed_tick_loop_diverges"),
+				format!("clock speed {what}: the audio callback did not return within 3 s (Clock::update counts the ticks of its timer one by one: `while tick_timer >= 1.0 {{ tick_timer -= 1.0; ticks += 1 }}`)"),
+				None,
 			);
+			continue;
+		}
+		if let Some(c) = t.panic {
+			s.fail(scenario_term(&sc, false), format!("clock speed {what}: panic (code {c}) in a callback"), None);
+			continue;
+		}
+		if took > Duration::from_millis(1500) {
+			s.fail(scenario_term(&sc, false), format!("clock speed {what}: three buffers took {:?}: the cost of Clock::update grows with the clock speed", took), None);
+		}
+		// the property on the implementation: after a buffer the clock shows a fraction in [0,1) and a tick count that did not go back
+		let views: Vec<View> = t.views.iter().map(|x| x.2).collect();
+		for w in views.windows(2) {
+			if w[1].ticks < w[0].ticks {
+				s.fail(scenario_term(&sc, false), format!("clock speed {what}: tick count went back from {} to {}", w[0].ticks, w[1].ticks), None);
+			}
+		}
+		for v in &views {
+			if !(v.fr >= 0.0 && v.fr < 1.0) {
+				s.fail(scenario_term(&sc, false), format!("clock speed {what}: time() shows the fraction {:?}, outside [0,1)", v.fr), None);
+			}
+		}
+		if views.len() == 3 && views[2].ticks == 0 {
+			s.fail(scenario_term(&sc, false), format!("clock speed {what}: the clock did not advance"), None);
 		}
 	}
 }
-
 
 // ------------------------------------------------------------------------------------------
 // the two-word protocol under a schedule: real threads, real code, a baton at the yield points
@@ -1108,12 +1165,13 @@ pub fn run(args: &Args) {
 		}
 	}
 
-	// ---- boundary stream: zero / negative / NaN / large speeds, zero-frame callbacks, callbacks smaller than the buffer
-	for (k, x) in [0.0, -0.0, -1.0, -8.5, f64::NAN, 2000.0, 1e-300, 5e-324, f64::MIN_POSITIVE].iter().enumerate() {
+	// ---- boundary stream: zero / negative / NaN / huge / infinite speeds (2^53, 2^54, 2^63, 2^64 ticks per 16-frame
+	// buffer at 512 Hz; the F7 region), zero-frame callbacks, callbacks smaller than the buffer
+	for (k, x) in [0.0, -0.0, -1.0, -8.5, f64::NAN, 2000.0, 1e-300, 5e-324, f64::MIN_POSITIVE, 1e9, 2.8823037615171174e17, 5.764607523034235e17, 2.9514790517935283e20, 5.902958103587057e20, 1e300, f64::MAX, f64::INFINITY, f64::NEG_INFINITY, -1e300]
+		.iter()
+		.enumerate()
+	{
 		for kind in 0..3u8 {
-			if kind == 0 && (*x == 0.0 || *x < 1e-3) && !x.is_nan() {
-				continue; // SecondsPerTick(0 / tiny): F7, driven in f7_cases
-			}
 			let sp = Spd { kind, x: *x };
 			let ops = vec![
 				Op::AddClock(sp),
@@ -1128,7 +1186,7 @@ pub fn run(args: &Args) {
 				Op::StartProc,
 				Op::Obs(0),
 			];
-			let sc = Scenario { sr: 512, buf: 16, fuel: 3000, ops, dyadic: false };
+			let sc = Scenario { sr: 512, buf: 16, ops, dyadic: false };
 			let t = run_scenario(&sc, 20000);
 			let term = scenario_term(&sc, false);
 			s.case("history_boundary_speed", term.clone(), &t.obs64, Some(key_of(&term)));
@@ -1136,7 +1194,7 @@ pub fn run(args: &Args) {
 	}
 	s.notes.push("resume_at(ClockTime): the playback state becomes Resuming (and the position advances) in the buffer k* predicted by the model, but the fade-in parameter is set after its own update in that buffer, so the first audible frame is the first frame of buffer k*+1; the harness maps the audible onset back by one buffer".into());
 	s.notes.push("hooks used (cfg(kira_verif), add-only): yield points in ClockShared::fractional_position (= between the two loads of ClockHandle::time), Clock::update_shared (between its two stores), ClockHandle::stop (between its two stores)".into());
-	s.notes.push("not driven: clock speeds linked to modulators (Value::FromModulator), streaming sounds as waiters, release-profile wrapping arithmetic".into());
+	s.notes.push("not driven: clock speeds linked to modulators (Value::FromModulator), streaming sounds as waiters (the tick count saturates at u64::MAX in every build profile since the F7 repair: boundary stream and f7_regression cases)".into());
 
 	// ---- monitors
 	for _ in 0..n {
@@ -1149,8 +1207,8 @@ pub fn run(args: &Args) {
 		monitor_self_reference(&mut s, &mut rng);
 	}
 	schedule_cases(&mut s, &mut rng, args.thorough);
-	// last: each of these leaves a spinning thread behind
-	f7_cases(&mut s);
+	// last: if F7 is back each of these leaves a spinning thread behind
+	f7_regression_cases(&mut s);
 	s.finish();
 }
 
@@ -1165,7 +1223,7 @@ fn experiment() {
 		Op::StartProc,
 		Op::Obs(0),
 	];
-	let sc = Scenario { sr: 512, buf: 16, fuel: 1000, ops, dyadic: true };
+	let sc = Scenario { sr: 512, buf: 16, ops, dyadic: true };
 	let t = run_scenario(&sc, 5000);
 	println!("{:?}", t);
 	let ops = vec![
@@ -1177,7 +1235,7 @@ fn experiment() {
 		Op::StartProc,
 		Op::Obs(0),
 	];
-	let sc = Scenario { sr: 512, buf: 16, fuel: 1000, ops, dyadic: true };
+	let sc = Scenario { sr: 512, buf: 16, ops, dyadic: true };
 	let t = run_scenario(&sc, 5000);
 	println!("{:?}", t);
 }
